@@ -82,7 +82,7 @@ g721_encoder (
 	int		sl,
 	G72x_STATE *state_ptr)
 {
-	short		sezi, se, sez ;		/* ACCUM */
+	short		sezi, sei, se, sez ;	/* ACCUM */
 	short		d ;			/* SUBTA */
 	short		sr ;			/* ADDB */
 	short		y ;			/* MIX */
@@ -94,7 +94,8 @@ g721_encoder (
 
 	sezi = predictor_zero (state_ptr) ;
 	sez = sezi >> 1 ;
-	se = (sezi + predictor_pole (state_ptr)) >> 1 ;	/* estimated signal */
+	sei = sezi + predictor_pole (state_ptr) ;
+	se = sei >> 1 ;				/* estimated signal */
 
 	d = sl - se ;				/* estimation difference */
 
